@@ -1129,7 +1129,7 @@ pub fn run_case(slots_n: usize, heap_cfg: &super::heapcfg::HeapCfg, fail_run_req
             violation = Some(mk(hv.kind, hv.detail));
         } else if live != 0 {
             violation = Some(mk("leaked_block", format!("{live} block(s) still allocated after every handle was dropped")));
-        } else {
+        } else if stats.counters.alloc > 0 {
             stats.relevant("C03");
         }
     }
